@@ -9,14 +9,14 @@ SEEDS=${1:-6}; N=${2:-40}
 BIN=./bin/icesim; RBIN=./bin/icesim-race
 [ -x $BIN ] || { echo "run ./check.sh setup first" >&2; exit 2; }
 tmp=$(mktemp -d /verif/bin/det-XXXXXX); trap 'rm -rf $tmp' EXIT
-pairs="C01:world C02:world C03:world C04:world C11:world C16:world C05:nav C06:stored C07:docvalues C08:dictionary C09:concurrent C10:interop C10:golden C12:persist-fault C13:reuse C14:build-history C15:immutability C17:tree C18:dmt C19:read-fault"
+pairs="C03:lifecycle C16:giant C11:aligned C19:read-fault-large C01:world C02:world C03:world C04:world C11:world C16:world C05:nav C06:stored C07:docvalues C08:dictionary C09:concurrent C10:interop C10:golden C12:persist-fault C13:reuse C14:build-history C15:immutability C17:tree C18:dmt C19:read-fault"
 fail=0; total=0
 run() { # bin gomaxprocs prop scen seed n out
   GOMAXPROCS=$2 GORACE="halt_on_error=0 log_path=$tmp/race" $1 trace $3 $4 $5 $6 > $7 2>$7.err || { echo "trace failed: $*"; cat $7.err | tail -5; fail=1; }
 }
 for pair in $pairs; do
   prop=${pair%%:*}; scen=${pair##*:}
-  n=$N; case $scen in persist-fault|read-fault) n=$((N/8+1));; esac
+  n=$N; case $scen in persist-fault|read-fault|read-fault-large) n=$((N/8+1));; giant|aligned) n=2;; esac
   for seed in $(seq 1 $SEEDS); do
     (
       run $BIN 1 $prop $scen $seed $n $tmp/$prop-$scen-$seed.g1
